@@ -314,6 +314,17 @@ def tables_c15(out, notes):
                            and _raises(lambda: list_of_pairs_to_dict(["a", "b"]))
                            and not _raises(lambda: list_of_pairs_to_dict([""])) and not _raises(lambda: list_of_pairs_to_dict([["a", "b"]])))
         raise_sites[34] = _raises(lambda: [][0])
+        from rpft.rapidpro.models import campaigns
+
+        raise_sites[52] = (_raises(lambda: triggers.Trigger("K", [], flow_name="f"))
+                           and _raises(lambda: triggers.Trigger("K", [""], flow_name="f"))
+                           and _raises(lambda: triggers.Trigger("C", [], flow_name=""))
+                           and _raises(lambda: triggers.Trigger("C", [], flow_name="f", group_names=[""], group_uuids=[]))
+                           and not _raises(lambda: triggers.Trigger("K", ["k"], flow_name="f", group_names=["g"], group_uuids=[])))
+        raise_sites[53] = (_raises(lambda: campaigns.CampaignEvent(1, "D", "M", -1, "I", relative_to_label="Created On",
+                                                                   flow_name=None, message=None, base_language=None))
+                           and not _raises(lambda: campaigns.CampaignEvent(1, "D", "M", -1, "I", relative_to_label="Created On",
+                                                                           flow_name=None, message={"eng": "m"}, base_language="eng")))
         max_value_a = _limit(lambda n: actions.SetContactFieldAction("field", "x" * n), 640)
         max_value_b = _limit(lambda n: actions.SetRunResultAction("res", "x" * n), 640)
         if max_value_a != max_value_b:
